@@ -254,6 +254,9 @@ func genNitro(variant string, seed uint64, tier string) *Plan {
 	}
 	// drawn last so that the rest of the plan is what it was before these existed
 	k["late_scan"] = r.Intn(2) // the final closers re-scan every snapshot right before closing it
+	if r.Bool(0.7) {
+		k["varkeys"] = 1 // keys of 4..7 bytes instead of 4
+	}
 	if nw >= 2 && variant != "nitro_backlog" && r.Bool(0.4) {
 		// after everything else is quiescent: every writer puts and deletes private keys
 		// (same-epoch deletes, each flushing a barrier session) and nothing follows but Close
